@@ -239,6 +239,7 @@ struct Runner {
     cfg: Config,
     store: Option<RaftLog<VT>>,
     dump: Option<raft_log::Dump<VT>>,
+    held: Vec<i32>,
     stopped: bool,
     timeout: Duration,
 }
@@ -359,7 +360,18 @@ impl Runner {
         }
     }
 
+    fn release_forked(&mut self) {
+        for pid in self.held.drain(..) {
+            unsafe {
+                libc::kill(pid, libc::SIGKILL);
+                let mut st = 0;
+                libc::waitpid(pid, &mut st, 0);
+            }
+        }
+    }
+
     fn cleanup(&mut self) {
+        self.release_forked();
         self.dump = None;
         self.kill_store();
         gate::set_mode(Mode::Free);
@@ -786,9 +798,15 @@ impl Runner {
                     s.drain_cache_evictable();
                 }
             }
-            ["drop"] | ["droppanic"] => {
+            ["drop"] | ["droppanic"] | ["dropslow"] => {
                 if let Some(s) = self.store.take() {
-                    gate::set_mode(Mode::Free);
+                    if toks[0] == "dropslow" {
+                        // the worker needs more than a second for each step it still has to do
+                        gate::SLOW_EXTRA_MS.store(1300, std::sync::atomic::Ordering::SeqCst);
+                        gate::set_mode(Mode::Slow);
+                    } else {
+                        gate::set_mode(Mode::Free);
+                    }
                     // while the store is being dropped, every file-system call of its worker first
                     // checks that the directory lock is still held
                     gate::set_lock_probe(Some(format!("{}/LOCK", self.dir)));
@@ -805,6 +823,7 @@ impl Runner {
                     };
                     gate::set_lock_probe(None);
                     let alive = gate::current_worker_alive();
+                    gate::SLOW_EXTRA_MS.store(0, std::sync::atomic::Ordering::SeqCst);
                     self.flush_events();
                     if r.is_err() {
                         self.emit("drop panic");
@@ -1174,6 +1193,28 @@ impl Runner {
                     r
                 ));
             }
+            ["forkhold"] => {
+                // a child created by fork() inherits every open descriptor of this process (among
+                // them the one of the LOCK file) and keeps them until `forkrelease`
+                let _ = self.out.flush();
+                let pid = unsafe { libc::fork() };
+                if pid == 0 {
+                    unsafe { libc::prctl(libc::PR_SET_PDEATHSIG, libc::SIGKILL) };
+                    loop {
+                        unsafe { libc::pause() };
+                    }
+                }
+                if pid > 0 {
+                    self.held.push(pid);
+                    self.emit("forkhold ok");
+                } else {
+                    self.emit("forkhold failed");
+                }
+            }
+            ["forkrelease"] => {
+                self.release_forked();
+                self.emit("forkrelease ok");
+            }
             ["dumpopen"] => {
                 let cfg = Arc::new(self.cfg.clone());
                 match catch_unwind(AssertUnwindSafe(|| raft_log::Dump::<VT>::new(cfg))) {
@@ -1201,6 +1242,36 @@ impl Runner {
                         Ok(Ok(n)) => self.emit(&format!("enc size-mismatch {} {}", n, bs.len())),
                         Ok(Err(_)) => self.emit("enc err"),
                         Err(_) => self.emit("enc panic"),
+                    }
+                }
+                None => self.emit("bad-op"),
+            },
+            ["rt", rec @ ..] => match parse_record(rec) {
+                // round trip inside the implementation (records too large to print)
+                Some(r) => {
+                    let res = catch_unwind(AssertUnwindSafe(|| {
+                        let mut bs = vec![];
+                        let n = r.encode(&mut bs).map_err(|_| "enc-err")?;
+                        if n != bs.len() {
+                            return Err("size-mismatch");
+                        }
+                        let mut rd = Dribble { data: &bs, pos: 0, k: usize::MAX };
+                        let back = Rec::decode(&mut rd).map_err(|e| {
+                            if e.kind() == io::ErrorKind::UnexpectedEof { "dec-eof" } else { "dec-invalid" }
+                        })?;
+                        if rd.pos != bs.len() {
+                            return Err("dec-left-bytes");
+                        }
+                        let mut again = vec![];
+                        if back.encode(&mut again).is_err() || again != bs {
+                            return Err("differs");
+                        }
+                        Ok(n)
+                    }));
+                    match res {
+                        Ok(Ok(n)) => self.emit(&format!("rt ok {}", n)),
+                        Ok(Err(e)) => self.emit(&format!("rt {}", e)),
+                        Err(_) => self.emit("rt panic"),
                     }
                 }
                 None => self.emit("bad-op"),
@@ -1326,6 +1397,7 @@ fn main() {
         cfg: Config::new(""),
         store: None,
         dump: None,
+        held: vec![],
         stopped: false,
         timeout: Duration::from_millis(timeout),
     };
